@@ -143,6 +143,44 @@ pub enum Capture {
     Serde,
 }
 
+/// How the `evt_kind` value is represented when the event is built (what it DENOTES is `KindSpec`).
+#[derive(Serialize, Deserialize, Debug, Clone, Copy, PartialEq, Eq, Default)]
+pub enum KindRepr {
+    /// a live `emit::Kind` (`Kind::to_value`) for typed kinds, a borrowed `&str` for texts
+    #[default]
+    Live,
+    /// an owned `String` holding the kind's text (`Value::from(&String)`)
+    OwnedString,
+    /// `Value::from_display(&kind)` / `from_display(&String)`: only its Display is known
+    FromDisplay,
+    /// a user type that implements nothing but `Display`
+    DisplayNewtype,
+    /// `Value::from_display(&format_args!("{}", kind))`
+    FormatArgs,
+}
+
+/// What happens to the event's properties between the application and `emit_otlp`.
+#[derive(Serialize, Deserialize, Debug, Clone, Copy, PartialEq, Eq, Default)]
+pub enum Buffering {
+    /// emitted as built
+    #[default]
+    None,
+    /// every value went through `Value::to_owned()`; the event is rebuilt from the owned props
+    ToOwned,
+    /// every value went through `Value::to_shared()`
+    ToShared,
+    /// an owned copy of the whole event is moved to another thread and emitted from there
+    OtherThread,
+}
+
+struct Shown(String);
+
+impl std::fmt::Display for Shown {
+    fn fmt(&self, f: &mut std::fmt::Formatter) -> std::fmt::Result {
+        f.write_str(&self.0)
+    }
+}
+
 #[derive(Serialize, Deserialize, Debug, Clone, PartialEq)]
 pub struct EventSpec {
     pub kind: KindSpec,
@@ -154,6 +192,10 @@ pub struct EventSpec {
     pub extras: Vec<i64>,
     /// put the kind property last instead of first
     pub kind_last: bool,
+    #[serde(default)]
+    pub kind_repr: KindRepr,
+    #[serde(default)]
+    pub buffering: Buffering,
 }
 
 enum Held {
@@ -241,13 +283,27 @@ pub fn emit_one(otlp: &emit_otlp::Otlp, case_id: u64, spec: &EventSpec) {
         }),
     };
 
-    let kind: Option<emit::Value> = match &spec.kind {
-        KindSpec::Absent => None,
-        KindSpec::Typed { span: true } => Some(emit::Value::capture_display(&emit::Kind::Span)),
-        KindSpec::Typed { span: false } => Some(emit::Value::capture_display(&emit::Kind::Metric)),
-        KindSpec::Text(s) => Some(emit::Value::from(s.as_str())),
-        KindSpec::Int(i) => Some(emit::Value::from(*i)),
-        KindSpec::Bool(b) => Some(emit::Value::from(*b)),
+    // the kind's text (what the value denotes) and the homes of its representations
+    let kind_text: String = match &spec.kind {
+        KindSpec::Typed { span: true } => "span".to_string(),
+        KindSpec::Typed { span: false } => "metric".to_string(),
+        KindSpec::Text(s) => s.clone(),
+        _ => String::new(),
+    };
+    let shown = Shown(kind_text.clone());
+    let live: &'static emit::Kind = if matches!(spec.kind, KindSpec::Typed { span: false }) { &emit::Kind::Metric } else { &emit::Kind::Span };
+    let kind_args = format_args!("{}", kind_text);
+    let kind: Option<emit::Value> = match (&spec.kind, spec.kind_repr) {
+        (KindSpec::Absent, _) => None,
+        (KindSpec::Int(i), _) => Some(emit::Value::from(*i)),
+        (KindSpec::Bool(b), _) => Some(emit::Value::from(*b)),
+        (KindSpec::Typed { .. }, KindRepr::Live) => Some(emit::Value::capture_display(live)),
+        (KindSpec::Text(_), KindRepr::Live) => Some(emit::Value::from(kind_text.as_str())),
+        (_, KindRepr::OwnedString) => Some(emit::Value::from(&kind_text)),
+        (KindSpec::Typed { .. }, KindRepr::FromDisplay) => Some(emit::Value::from_display(live)),
+        (KindSpec::Text(_), KindRepr::FromDisplay) => Some(emit::Value::from_display(&kind_text)),
+        (_, KindRepr::DisplayNewtype) => Some(emit::Value::from_display(&shown)),
+        (_, KindRepr::FormatArgs) => Some(emit::Value::from_display(&kind_args)),
     };
     let agg: Option<emit::Value> = match &spec.agg {
         AggSpec::Absent => None,
@@ -278,13 +334,31 @@ pub fn emit_one(otlp: &emit_otlp::Otlp, case_id: u64, spec: &EventSpec) {
         }
     }
 
-    let evt = emit::Event::new(
-        emit::Path::new_raw("c14::case"),
-        emit::Template::literal_ref(&name),
-        extent,
-        &props[..],
-    );
-    otlp.emit(evt);
+    let mdl = emit::Path::new_raw("c14::case");
+    match spec.buffering {
+        Buffering::None => otlp.emit(emit::Event::new(mdl, emit::Template::literal_ref(&name), extent, &props[..])),
+        Buffering::ToOwned | Buffering::ToShared | Buffering::OtherThread => {
+            // what a deferring / forwarding emitter, a capture or a replay does: keep owned copies of the
+            // props and build the event that reaches emit_otlp from those
+            let owned: Vec<(String, emit::value::OwnedValue)> = props
+                .iter()
+                .map(|(k, v)| (k.to_string(), if spec.buffering == Buffering::ToShared { v.to_shared() } else { v.to_owned() }))
+                .collect();
+            drop(props);
+            let replay = |owned: &[(String, emit::value::OwnedValue)], name: &str, extent: Option<emit::Extent>| {
+                let again: Vec<(&str, emit::Value)> = owned.iter().map(|(k, v)| (k.as_str(), emit::Value::from(v))).collect();
+                otlp.emit(emit::Event::new(emit::Path::new_raw("c14::case"), emit::Template::literal_ref(name), extent, &again[..]));
+            };
+            if spec.buffering == Buffering::OtherThread {
+                let name = name.clone();
+                std::thread::scope(|scope| {
+                    scope.spawn(move || replay(&owned, &name, extent));
+                });
+            } else {
+                replay(&owned, &name, extent);
+            }
+        }
+    }
 }
 
 // ---------------------------------------------------------------------------------------------
@@ -543,6 +617,37 @@ pub fn classify(cfg: &Config, e: &EventSpec, cx: &mut Cx) {
         KindSpec::Text(s) if s.trim().eq_ignore_ascii_case("span") || s.trim().eq_ignore_ascii_case("metric") => "kind:wrong-case-or-padded",
         KindSpec::Text(_) => "kind:unknown-text",
         KindSpec::Int(_) | KindSpec::Bool(_) => "kind:non-text",
+    });
+    if !matches!(e.kind, KindSpec::Absent | KindSpec::Int(_) | KindSpec::Bool(_)) {
+        let typed = matches!(e.kind, KindSpec::Typed { .. });
+        cx.class(match (e.kind_repr, typed) {
+            (KindRepr::Live, true) => "kind-repr:live-kind",
+            (KindRepr::Live, false) => "kind-repr:str",
+            (KindRepr::OwnedString, _) => "kind-repr:string",
+            (KindRepr::FromDisplay, _) => "kind-repr:display-captured",
+            (KindRepr::DisplayNewtype, _) => "kind-repr:display-newtype",
+            (KindRepr::FormatArgs, _) => "kind-repr:format-args",
+        });
+        match (e.buffering, e.kind_repr, typed) {
+            (Buffering::ToOwned, KindRepr::Live, true) => cx.class("kind-repr:owned-kind"),
+            (Buffering::ToShared, KindRepr::Live, true) => cx.class("kind-repr:shared-kind"),
+            (Buffering::OtherThread, KindRepr::Live, true) => cx.class("kind-repr:owned-kind-on-other-thread"),
+            _ => {}
+        }
+        if e.buffering != Buffering::None {
+            cx.class(match e.kind_repr {
+                KindRepr::Live if typed => "kind-repr:buffered-kind",
+                KindRepr::Live => "kind-repr:buffered-str",
+                KindRepr::OwnedString => "kind-repr:buffered-string",
+                _ => "kind-repr:buffered-display",
+            });
+        }
+    }
+    cx.class(match e.buffering {
+        Buffering::None => "buffered:no",
+        Buffering::ToOwned => "buffered:to-owned",
+        Buffering::ToShared => "buffered:to-shared",
+        Buffering::OtherThread => "buffered:replayed-on-other-thread",
     });
     cx.class(match e.extent {
         ExtentSpec::None => "extent:none",
